@@ -739,6 +739,35 @@ mod native {
             let r = guard(|| (m.pdf)(x));
             let ok = matches!(r, Ok(v) if v >= 0.0);
             rep.check("C02.boundary.sane", &regime, ok, || json!({"setting": params, "x": x, "observed": match &r { Ok(v) => jnum(*v), Err(e) => json!({"panic": e}) }, "expected": "no panic, not NaN, >= 0"}));
+            // Ends that the library *documents* as belonging to the support (Uniform "[lower, upper]",
+            // Beta "[0, 1]", Exponential "0 if x is negative", Pareto "0 if x < minval", ChiSquared
+            // "non-negative x unless dof = 1") carry the textbook value there: the one-sided limit of
+            // the formula (e.g. 1/2 for ChiSquared(2) at 0), whenever that limit is finite.
+            let closed = match law {
+                "uniform" | "beta" => true,
+                "exponential" | "pareto" => x == m.lo,
+                "chi2" => x == m.lo && spec.a >= 2.0,
+                _ => false,
+            };
+            if let (true, Ok(got)) = (closed, &r) {
+                // the limit is read off two points 1 and 4 ulps inside the support: equal values =
+                // finite non-zero limit (the end value must match it), decreasing towards the end =
+                // limit 0 (the end value must not exceed the inner one), increasing = singular (skipped)
+                let nb2 = x + 4.0 * (nb - x);
+                let (w1, w2) = ((m.ref_ln)(nb).exp(), (m.ref_ln)(nb2).exp());
+                if w1.is_finite() && w2.is_finite() && w1 < 1e200 && m.representable(nb2) {
+                    let verdict = if (w1 - w2).abs() <= 1e-9 * w1 {
+                        Some((got - w1).abs() <= 1e-6 * w1)
+                    } else if w1 < w2 {
+                        Some(*got <= w1)
+                    } else {
+                        None
+                    };
+                    if let Some(okv) = verdict {
+                        rep.check("C02.boundary.closed_end", &regime, okv, || json!({"setting": params, "x": x, "observed": jnum(*got), "formula_1ulp_inside": jnum(w1), "formula_4ulp_inside": jnum(w2)}));
+                    }
+                }
+            }
         }
         for &x in &outside {
             rep.case(&regime);
